@@ -94,6 +94,8 @@ class NMEA2000Encoder:
             raise ValueError("Source ID must be between 0 and 255")
         if not (0 <= nmea2000Message.PGN <= 0x3FFFF):  # PGN is 18 bits
             raise ValueError("PGN ID must be between 0 and 0x3FFFF")
+        if not (0 <= nmea2000Message.destination <= 255):  # would otherwise spill into the PGN bits of the frame id
+            raise ValueError("Destination must be between 0 and 255")
 
         can_data_bytes = self._call_encode_function(nmea2000Message)
 
